@@ -46,6 +46,36 @@ class EnumMember:
         return '{}.{}'.format(self.enum, self.name)
 
 
+class FuncRef:
+    """A repository function used as a value (dispatch tables)."""
+    def __init__(self, func):
+        self.func = func
+
+    def __eq__(self, o):
+        return isinstance(o, FuncRef) and o.func is self.func
+
+    def __hash__(self):
+        return hash(id(self.func))
+
+    def __repr__(self):
+        return 'FuncRef({})'.format(self.func.fq)
+
+
+class Sentinel:
+    """The unique object created by one `object()` expression."""
+    def __init__(self, node):
+        self.node = node
+
+    def __eq__(self, o):
+        return isinstance(o, Sentinel) and o.node is self.node
+
+    def __hash__(self):
+        return hash(id(self.node))
+
+    def __repr__(self):
+        return 'Sentinel@{}'.format(getattr(self.node, 'lineno', '?'))
+
+
 POSIX_FOLD = {
     'platform_info().family': 'posix',
 }
@@ -226,6 +256,8 @@ def const_eval(repo, module, expr, cls=None, local=None, depth=0):
             return UNKNOWN
     if isinstance(expr, ast.Call):
         fn = unparse(expr.func)
+        if fn == 'object' and not expr.args and not expr.keywords:
+            return Sentinel(expr)
         is_re_compile = fn == 're.compile'
         if not is_re_compile and isinstance(expr.func, ast.Attribute) and \
                 expr.func.attr == 'compile' and isinstance(
@@ -268,6 +300,8 @@ def const_eval(repo, module, expr, cls=None, local=None, depth=0):
 def _from_resolved(repo, r, depth):
     if r is None:
         return UNKNOWN
+    if r[0] == 'func':
+        return FuncRef(r[1])
     if r[0] == 'value' and r[3] is not None:
         return const_eval(repo, r[1], r[3], None, None, depth + 1)
     return UNKNOWN
@@ -309,9 +343,11 @@ def fold_test(repo, module, test, cls=None, local=None, depth=0):
             if isinstance(op, ast.NotIn):
                 return l not in r
             if isinstance(op, ast.Is):
-                return l is r or (l == r and isinstance(l, EnumMember))
+                return l is r or (l == r and isinstance(
+                    l, (EnumMember, Sentinel, FuncRef)))
             if isinstance(op, ast.IsNot):
-                return not (l is r or (l == r and isinstance(l, EnumMember)))
+                return not (l is r or (l == r and isinstance(
+                    l, (EnumMember, Sentinel, FuncRef))))
         except Exception:
             return None
         return None
@@ -427,3 +463,79 @@ def _fold2(repo, module, e, cls):
             return UNKNOWN
         return tuple(vals)
     return const_eval(repo, module, e, cls)
+
+
+def repl_to_template(repo, module, fnode):
+    """A `re.sub` replacement *function* whose body is a single `return` of
+    match groups and constants joined by `+` (optionally repeated with
+    `* n`), turned into the equivalent replacement template; UNKNOWN when
+    the function has another shape."""
+    body = [st for st in fnode.body if not (isinstance(st, ast.Expr) and
+                                            isinstance(st.value, ast.Constant))]
+    if isinstance(fnode, ast.Lambda):
+        ret = fnode.body
+        params = [a.arg for a in fnode.args.args]
+    else:
+        params = [a.arg for a in fnode.args.args if a.arg not in ('self',
+                                                                  'cls')]
+        env = {}
+        for st in body[:-1]:
+            # named temporaries: a, b = m.group(1), m.group(2) / a = m.group(1)
+            if isinstance(st, ast.Assign) and len(st.targets) == 1:
+                t, v = st.targets[0], st.value
+                if isinstance(t, ast.Name):
+                    env[t.id] = v
+                    continue
+                if isinstance(t, ast.Tuple) and isinstance(
+                        v, ast.Tuple) and len(t.elts) == len(v.elts) and all(
+                            isinstance(x, ast.Name) for x in t.elts):
+                    for x, y in zip(t.elts, v.elts):
+                        env[x.id] = y
+                    continue
+            return UNKNOWN
+        if not body or not isinstance(body[-1], ast.Return) or \
+                body[-1].value is None:
+            return UNKNOWN
+        ret = body[-1].value
+    if not params:
+        return UNKNOWN
+    m = params[0]
+    if isinstance(fnode, ast.Lambda):
+        env = {}
+
+    def tmpl(e, depth=0):
+        if depth > 8:
+            return UNKNOWN
+        if isinstance(e, ast.Name) and e.id in env:
+            return tmpl(env[e.id], depth + 1)
+        if isinstance(e, ast.BinOp) and isinstance(e.op, ast.Add):
+            l, r = tmpl(e.left, depth + 1), tmpl(e.right, depth + 1)
+            return UNKNOWN if l is UNKNOWN or r is UNKNOWN else l + r
+        if isinstance(e, ast.BinOp) and isinstance(e.op, ast.Mult):
+            for a, b in ((e.left, e.right), (e.right, e.left)):
+                n = const_eval(repo, module, b)
+                if isinstance(n, int) and 0 <= n <= 4:
+                    t = tmpl(a, depth + 1)
+                    return UNKNOWN if t is UNKNOWN else t * n
+            return UNKNOWN
+        if isinstance(e, ast.Call) and isinstance(
+                e.func, ast.Attribute) and e.func.attr == 'group' and \
+                isinstance(e.func.value, ast.Name) and \
+                e.func.value.id == m and len(e.args) <= 1:
+            k = const_eval(repo, module, e.args[0]) if e.args else 0
+            if isinstance(k, int):
+                return '\\g<{}>'.format(k)
+            if isinstance(k, str) and k.isidentifier():
+                return '\\g<{}>'.format(k)
+            return UNKNOWN
+        if isinstance(e, ast.Subscript) and isinstance(
+                e.value, ast.Name) and e.value.id == m:
+            k = const_eval(repo, module, e.slice)
+            if isinstance(k, int) or isinstance(k, str) and k.isidentifier():
+                return '\\g<{}>'.format(k)
+            return UNKNOWN
+        v = const_eval(repo, module, e)
+        if isinstance(v, str):
+            return v.replace('\\', '\\\\')
+        return UNKNOWN
+    return tmpl(ret)
